@@ -329,36 +329,35 @@ def rule_network(ck):
             htimes: ("T",), "__phi__": None}
     hsh = Shapes(henv)
     rets = [n for n in hl.cfg.nodes if n.kind == "return"]
-    ck.floor("C06.R4", len(rets), 2, "returns of constraint_current")
+    ck.floor("C06.R4", len(rets), 1, "returns of constraint_current")
     modes = set()
     for r in rets:
-        mode = None
-        for a, t in facts_at(hl, r):
-            if dotted(a) == hlin:
-                mode = t
-        if mode is None:
-            raise AnalysisError(f"constraint_current: return outside the linear / phase-aware branches: {src(r.stmt)}")
-        modes.add(mode)
-        for ex in alts_deep(hl.expand(r.expr, r))[:8]:
-            # selected rows: constraint_indices is a list -> keeps the C axis
-            hsh.env["self.constraint_matrix[constraint_indices]"] = ("C", "N")
-            ex2 = _strip_index_lists(ex)
-            s = hsh.of(ex2)
-            ck.count("shape inferences", 1)
-            ck.require(s == ("C", "T"), "C06.R5", h, r.expr, ok="aggregate currents keep (constraint, period) axes",
-                       bad=f"constraint_current returns shape {s}, not one value per constraint and period", sink=f"net:{'linear' if mode else 'phasor'}:shape")
-            if mode:
-                check_linear_abs(ck, h, ex, r.expr, "net")
-            else:
-                d2r = [q for q in ast.walk(ex) if isinstance(q, ast.Call) and call_name(q) == "deg2rad"]
-                ck.require(bool(d2r) and all(q.args and canon(q.args[0]) == "self._phase_angles" for q in d2r), "C06.R3", h, r.expr,
-                           ok="phase angles converted with deg2rad", bad="the network-side phasor sum uses the phase angles without deg2rad(self._phase_angles)",
-                           sink="net:deg2rad")
-                ex_ok = any(isinstance(q, ast.Call) and call_name(q) == "exp" and q.args and any(isinstance(z, ast.Constant) and isinstance(z.value, complex)
-                                                                                                   for z in ast.walk(q.args[0])) for q in ast.walk(ex))
-                ck.require(ex_ok, "C06.R3", h, r.expr, ok="unit phasors exp(1j*angle)", bad="no complex exponential exp(1j*angle) in the phase-aware sum", sink="net:exp")
-                ps = products(ex)
-                ck.require(bool(ps), "C06.R3", h, r.expr, ok="coefficient x phasor schedule product", bad="no product of coefficients and schedule", sink="net:phasor:product")
+        for mode in (True, False):
+            menv = {hlin: mode}
+            if not path_feasible(hl, r, menv):
+                continue
+            modes.add(mode)
+            gex = specialise(gexpand(hl, r.expr, r), menv)
+            for ex in alts_deep(gex)[:8]:
+                # selected rows: constraint_indices is a list -> keeps the C axis
+                hsh.env["self.constraint_matrix[constraint_indices]"] = ("C", "N")
+                ex2 = _strip_index_lists(ex)
+                s = hsh.of(ex2)
+                ck.count("shape inferences", 1)
+                ck.require(s == ("C", "T"), "C06.R5", h, r.expr, ok="aggregate currents keep (constraint, period) axes",
+                           bad=f"constraint_current returns shape {s}, not one value per constraint and period", sink=f"net:{'linear' if mode else 'phasor'}:shape")
+                if mode:
+                    check_linear_abs(ck, h, ex, r.expr, "net")
+                else:
+                    d2r = [q for q in ast.walk(ex) if isinstance(q, ast.Call) and call_name(q) == "deg2rad"]
+                    ck.require(bool(d2r) and all(q.args and canon(q.args[0]) == "self._phase_angles" for q in d2r), "C06.R3", h, r.expr,
+                               ok="phase angles converted with deg2rad", bad="the network-side phasor sum uses the phase angles without deg2rad(self._phase_angles)",
+                               sink="net:deg2rad")
+                    ex_ok = any(isinstance(q, ast.Call) and call_name(q) == "exp" and q.args and any(isinstance(z, ast.Constant) and isinstance(z.value, complex)
+                                                                                                       for z in ast.walk(q.args[0])) for q in ast.walk(ex))
+                    ck.require(ex_ok, "C06.R3", h, r.expr, ok="unit phasors exp(1j*angle)", bad="no complex exponential exp(1j*angle) in the phase-aware sum", sink="net:exp")
+                    ps = products(ex)
+                    ck.require(bool(ps), "C06.R3", h, r.expr, ok="coefficient x phasor schedule product", bad="no product of coefficients and schedule", sink="net:phasor:product")
     ck.require(modes == {True, False}, "C06.R4", h, "both modes", bad=f"constraint_current modes found: {sorted(modes)}", sink="net:modes")
     # ---- is_feasible
     rets = [n for n in cfg.nodes if n.kind == "return"]
